@@ -493,6 +493,7 @@ class FnSpec:
         self.loops = {}
         self.loopbodies = {}
         self.ticks = None
+        self.boolor = []
         self.after = []
         self.props = None
         self.decreases = None
@@ -565,11 +566,13 @@ def parse_fn_directive(lines, defaults):
             fs.props = txt
         elif cur == "ticks":
             fs.ticks = txt.strip()
+        elif cur == "boolor":
+            fs.boolor.append(txt.strip())
         cur, buf = None, []
 
     for ln in lines[1:]:
         s = ln.strip()
-        m = re.match(r'(requires|ensures|decreases|head|props|ticks|loopbody\s+\d+|loop\s+\d+|before\s+"[^"]*"(?:\s+\d+)?|after\s+"[^"]*"(?:\s+\d+)?)(?=\s|$)\s*(.*)$', s)
+        m = re.match(r'(requires|ensures|decreases|head|props|ticks|boolor|loopbody\s+\d+|loop\s+\d+|before\s+"[^"]*"(?:\s+\d+)?|after\s+"[^"]*"(?:\s+\d+)?)(?=\s|$)\s*(.*)$', s)
         if m and (cur is None or not ln.startswith("    ")):
             flush()
             cur = m.group(1)
@@ -742,6 +745,15 @@ def render_fn(idx, fs, table, ctx):
         prev = c
     segs.append(emit(rewrite_tokens(body[prev:], rules, opts_b)))
     body_txt = "\n".join(segs)
+    for pair in fs.boolor:
+        # R15: Verus has no non-short-circuit `|` on bool.  `boolor a b` rewrites the exact text `a | b` (two named bool locals, no side
+        # effects, so `|` and `||` agree) to `a || b`; the extraction fails if the text is not found exactly once
+        a, b = pair.split()
+        pat = r"(?<![\w|])%s\s*\|\s*%s(?![\w|])" % (re.escape(a), re.escape(b))
+        if len(re.findall(pat, body_txt)) != 1:
+            raise ExtractError("%s::%s: boolor %s %s: text not found exactly once" % (fs.anchor, fs.name, a, b))
+        body_txt = re.sub(pat, "%s || %s" % (a, b), body_txt)
+        rules.fired.add("R15")
     if fs.selfty:
         body_txt = re.sub(r"\bSelf\b", fs.selfty, body_txt)
     head_txt = ""
